@@ -98,7 +98,8 @@ def run(ctx):
                 "last line; oracles: handler-abort sentinel, EOF classifier, bystander ping-pong and message probe, ghost check "
                 "at session end; distinct = (verb, arity, session state, set of reply codes)")
     res.floor("lines", n, 20000 if ctx.quick else 400000)
-    res.floor("verbs_dispatched", len(counts), 38)
+    if hooks:
+        res.floor("verbs_dispatched", len(counts), 38)  # read from the server's own per-verb counters (hook)
     res.floor("session_states", len(states), 10)
     res.assumptions = ["debug profile keeps overflow/bounds/unwrap checks on (the sanitizers that matter without unsafe)",
                        "handler sentinel (hook H2) distinguishes handler unwinds from panics of detached timer tasks"]
